@@ -348,6 +348,7 @@ func genScalarCall(t *rapid.T, mg *msgGen) *ScalarCase {
 	if (c.Carrier == "map" || c.Carrier == "url") && rapid.IntRange(0, 5).Draw(t, "missing") == 0 {
 		c.Missing = true
 	}
+	c.T = maybeNamedDeep(t, c.T)
 	return c
 }
 
